@@ -53,6 +53,29 @@ def sec13():
         cell = res.replace(";", " ").strip() + ((" — " + hist) if hist else "")
         out.append(f"| {sid} | {str(m.get('summary',''))[:260].replace('|','/')} | {str(m.get('needs_to_manifest',''))[:260].replace('|','/')} | {cell.replace('|','/')} |")
     out.append("")
+    # harmless refactors
+    res = {}
+    rp = os.path.join(VERIF, "notes", "selftest_result.json")
+    head = ""
+    if os.path.exists(rp):
+        data = json.load(open(rp))
+        head = data.get("verif_head", "")[:8]
+        res = {(r["kind"], r["id"]): r for r in data.get("rows", [])}
+    out += ["### Harmless refactors (false-alarm regression)\n",
+            "Twenty behaviour-preserving refactors of the anchored code, one per property, written by independent agents "
+            "(`harmless/<Cxx>/patch.diff`, `description.txt`; each keeps the 512 baseline tests and was differentially tested "
+            "against `/repo` by its author on thousands of inputs). `harness/selftest.py` re-runs every stored seeded change and "
+            f"every harmless refactor against the checks; last full run at /verif commit `{head}` "
+            "(`notes/selftest_result.json`). *quiet* = exit 0; *alarm-without-input* = a proof obligation tied to the source text "
+            "(regenerated table, regex scan set) no longer checks and no failing input exists — reported as the brief prescribes, "
+            "`VIOLATION … no-failing-input-found`, naming the theorem.\n",
+            "| property | refactor (summary) | result |", "|---|---|---|"]
+    for d in sorted(glob.glob(os.path.join(VERIF, "harmless", "*", "description.txt"))):
+        pid = os.path.basename(os.path.dirname(d))
+        desc = " ".join(open(d).read().split())[:240].replace("|", "/")
+        r = res.get(("harmless", pid), {})
+        out.append(f"| {pid} | {desc} | {r.get('result', 'not run')} |")
+    out.append("")
     return "\n".join(out)
 
 
